@@ -127,6 +127,22 @@ def run_check(prop, streams, argv, level_text='', trusted_base=(), assumptions=(
     props_info = {}
     translation_info = {}
 
+    # every log record vakt emits is formatted (as any configured handler would do): printing a policy, a rule or an
+    # inquiry must not change it.  (Not under the deterministic scheduler of C14: it would only lengthen schedules.)
+    if prop != 'C14':
+        import logging
+
+        class _FormatAll(logging.Handler):
+            def emit(self, record):
+                try:
+                    record.getMessage()
+                except Exception:  # noqa
+                    pass
+        lg = logging.getLogger('vakt')
+        if not any(type(h).__name__ == '_FormatAll' for h in lg.handlers):
+            lg.setLevel(logging.DEBUG)
+            lg.addHandler(_FormatAll())
+
     # ---- 1. proof obligations
     try:
         bad = core.forbidden_scan()
